@@ -282,6 +282,26 @@ func runC03(ctx *core.Ctx, idx int) *core.Result {
 			extra = append(extra, "alias")
 		}
 		semBatchSeq(ctx, idx, res, []*gen.Change{c1, c2}, srcs, extra, idx%20 == 4, "C03")
+		// generated siblings: change 1 generates several wrapped operands at one site (all of them at the
+		// site's collapsed position), change 2 rewrites every wrapper: each with its own binding.
+		d1 := &gen.Change{Kind: "expr", Schema: "c03-siblings-1", Meta: []gen.MetaVar{{Name: "x", Kind: "expression"}, {Name: "y", Kind: "expression"}},
+			Lines: []gen.Line{gen.L('-', "tgtMax(«x», «y»)"), gen.L('+', "pkg.Max(conv(«x»), conv(«y»), conv(1))")}}
+		d2 := &gen.Change{Kind: "expr", Schema: "c03-siblings-2", Meta: []gen.MetaVar{{Name: "v", Kind: "expression"}},
+			Lines: []gen.Line{gen.L('-', "conv(«v»)"), gen.L('+', "toF(«v»)")}}
+		srcs, extra = nil, nil
+		for f := 0; f < 3; f++ {
+			var plants []gen.Plant
+			for p := 0; p < 1+r.Intn(4); p++ {
+				a, b := g.Ident(), g.Ident()
+				if r.Intn(3) == 0 {
+					a, b = g.Atom(), g.Atom()
+				}
+				plants = append(plants, gen.Plant{Kind: "expr", Text: "tgtMax(" + a + ", " + b + ")"})
+			}
+			srcs = append(srcs, g.File(gen.FileOpts{Plants: plants}))
+			extra = append(extra, "generated-siblings")
+		}
+		semBatchSeq(ctx, idx, res, []*gen.Change{d1, d2}, srcs, extra, idx%20 == 4, "C03")
 	}
 	return res
 }
